@@ -105,6 +105,9 @@ def twice_pairs():
         "get_method": (["GET", "  200 any"], "url_same"),
     }
     res = []
+    two = ("JSIGHT 0.3\nMACRO @zmix\n(\n  TYPE @zlow any\n)\nMACRO @zMix\n(\n  TYPE @zup any\n)\nPASTE @zMix\nPASTE @zmix\n",
+           "JSIGHT 0.3\nTYPE @zup any\nTYPE @zlow any\n")
+    res.append(("names_differ_in_case", two[1], two[0]))
     for nm, (body, where) in payloads.items():
         mac = "MACRO @ztw\n(\n" + ind(body, 1) + ")\n"
 
@@ -131,6 +134,9 @@ def reject_cases(doc, rnd):
     """-> list of (name, document) that must be rejected"""
     t1 = {"t": "type", "name": "@zq", "annot": "", "body": {"k": "int", "n": "", "props": [], "allOf": []}}
     res = [("undefined_paste", doc + [paste("@nope")]),
+           # names are compared exactly: a PASTE whose name differs from the MACRO's in letter case names nothing
+           ("paste_other_case", doc + [macro("@zcase", [t1]), paste("@Zcase")]),
+           ("paste_other_case_upper", doc + [macro("@ZCASE", [t1]), paste("@zcase")]),
            ("duplicate_macro", doc + [macro("@dm", [t1]), macro("@dm", [dict(t1, name="@zq2")])]),
            ("paste_without_name", doc + [{"t": "raw", "lines": ["PASTE"], "label": "PASTE"}])]
     for n in (1, 2, 3, 4):
